@@ -84,6 +84,24 @@ def _agg(results):
     return "discharged"
 
 
+def _mentions_arrays(goal):
+    """does the goal compare terms of the algebraic tensor sort (uninterpreted operators)?"""
+    from .values import ArrS
+    st, seen = [goal], set()
+    while st:
+        e = st.pop()
+        if e.get_id() in seen:
+            continue
+        seen.add(e.get_id())
+        if z3.is_quantifier(e):
+            continue
+        if z3.is_app(e):
+            if e.sort() == ArrS:
+                return True
+            st.extend(e.children())
+    return False
+
+
 def run_check(repo, chk: Check, tier, prefix):
     H = Harness(repo, chk)
     t0 = time.time()
@@ -138,6 +156,8 @@ def run_check(repo, chk: Check, tier, prefix):
             r, t, inf = discharge(o, timeout_ms=30000)
             ms += t
             spent += t
+            if r == "refuted" and o.meta.get("numeric") is None and _mentions_arrays(o.goal):
+                o.meta["numeric"] = {}   # goal-only standard-model check (no real-code replay available)
             if r == "refuted" and o.meta.get("numeric") is not None:
                 # algebraic obligation: is the counter-model realisable under the STANDARD interpretation of the operators?
                 from . import numeval
